@@ -30,6 +30,9 @@ pub enum KeyAlt {
   /// local protocols only: both keys are parsed from hexadecimal strings by the library; K has only the digits 0-5,
   /// K' replaces the nibbles selected by the mask with a-f, spelled in the given letter case
   HexSpelling(u64, bool),
+  /// v*.local, v2/v4.public: K' is built by `Key::<32>::from(&[u8])` from key material of another length:
+  /// kind 0 = K followed by n more bytes, kind 1 = K without its last n bytes, kind 2 = n bytes followed by K
+  WrongLength(u8, u8),
 }
 
 #[derive(Clone, Debug, Serialize, Deserialize)]
@@ -156,6 +159,7 @@ fn alt_public(p: Proto, seed: &[u8; 32], alt: &KeyAlt) -> Option<Vec<u8>> {
       k
     }
     KeyAlt::HexSpelling(..) => return None, // handled by `hex_spelling`
+    KeyAlt::WrongLength(..) => return None, // handled by `wrong_length`
     KeyAlt::RsaPool(i) => {
       if p != Proto::V1P {
         return None;
@@ -189,6 +193,9 @@ impl Sub for KeyBinding {
     if let KeyAlt::HexSpelling(mask, upper) = &c.alt {
       return hex_spelling(s, *mask, *upper, cl);
     }
+    if let KeyAlt::WrongLength(kind, n) = &c.alt {
+      return wrong_length(s, &t, *kind, *n, cl);
+    }
     let seed = s.seed();
     let alt = match alt_public(p, &seed, &c.alt) {
       Some(a) => a,
@@ -206,6 +213,7 @@ impl Sub for KeyBinding {
       KeyAlt::Permute(..) => "permuted-bytes",
       KeyAlt::FlipTwo(..) => "two-bit-flips",
       KeyAlt::HexSpelling(..) => "hex-spelled-keys",
+      KeyAlt::WrongLength(..) => "material-of-another-length",
     }));
     let (f, a) = (s.footer.as_deref(), s.assertion());
     let describe = |o: &crate::rt::LayerOut| o.message();
@@ -263,6 +271,57 @@ impl Sub for KeyBinding {
   }
 }
 
+/// Key material that differs from K in length (a longer secret that starts or ends with K, K cut short) handed to
+/// `Key::<32>::from(&[u8])`: refusing to build a key from it (the pinned library panics) counts as rejection; a key
+/// that is built must not open the token.
+fn wrong_length(s: &TokSpec, t: &str, kind: u8, n: u8, cl: &mut Classes) -> Verdict {
+  let p = s.proto;
+  if !(p.is_local() || matches!(p, Proto::V2P | Proto::V4P)) {
+    return Verdict::Discard;
+  }
+  let seed = s.seed();
+  let kb = keys::key_bytes(p, &seed).1;
+  let n = 1 + (n as usize % 32);
+  let material: Vec<u8> = match kind % 3 {
+    0 => kb.iter().copied().chain((0..n).map(|i| 0xa5u8.wrapping_add(i as u8))).collect(),
+    1 => kb[..32 - n.min(31)].to_vec(),
+    _ => (0..n).map(|i| 0x5au8.wrapping_add(i as u8)).chain(kb.iter().copied()).collect(),
+  };
+  cl.tag(format!("{}:{}", p.label(), s.layer.label()));
+  cl.tag(format!("alt:material-of-another-length({})", ["K+suffix", "K cut short", "prefix+K"][kind as usize % 3]));
+  let (f, a) = (s.footer.as_deref(), s.assertion());
+  let km = keys::material(p, &seed);
+  let lk = km.lib().expect("valid key");
+  let km2 = match KeyMaterial::from_slice_any_length(p, &material) {
+    Ok(k) => k,
+    Err(_) => {
+      cl.tag("rejected:key-constructor");
+      match layer_parse(p, s.layer, &lk, t, f, a) {
+        Ok(o) if o.message().as_deref() == Some(s.msg.as_str()) => {}
+        _ => return Verdict::Discard,
+      }
+      cl.nontrivial(true);
+      return Verdict::Pass;
+    }
+  };
+  let lk2 = match km2.lib() {
+    Ok(k) => k,
+    Err(_) => return Verdict::Discard,
+  };
+  let (r1, r2) = parse_twice(p, s.layer, (t, &lk, f, a), (t, &lk2, f, a));
+  match r1 {
+    Ok(o) if o.message().as_deref() == Some(s.msg.as_str()) => {}
+    _ => return Verdict::Discard,
+  }
+  cl.nontrivial(true);
+  match r2 {
+    Err(e) => cl.tag(format!("rejected:{}", e.variant)),
+    Ok(o) => vio!("C04:accepted-under-material-of-another-length:{}:{}", p.label(), s.layer.label();
+      "token produced under the 32-byte key {} was accepted under a key built from the {}-byte material {}; returned {:?}", hex::encode(&kb), material.len(), hex::encode(&material), o.message()),
+  }
+  Verdict::Pass
+}
+
 /// K and K' both come from `Key::<32>::try_from(&str)`; they differ as byte strings (per the `hex` crate, the
 /// oracle's decoder), so the token built under K must be refused under K'.
 fn hex_spelling(s: &TokSpec, mask: u64, upper: bool, cl: &mut Classes) -> Verdict {
@@ -314,19 +373,21 @@ fn hex_spelling(s: &TokSpec, mask: u64, upper: bool, cl: &mut Classes) -> Verdic
 }
 
 fn alt_strategy(p: Proto) -> BoxedStrategy<KeyAlt> {
-  prop_oneof![
-    6 => gen::bytes32().prop_map(KeyAlt::OtherSeed),
-    6 => any::<u16>().prop_map(KeyAlt::FlipBit),
-    1 => Just(KeyAlt::AllZero),
-    1 => Just(KeyAlt::AllOne),
-    if p.is_local() { 0 } else { 1 } => Just(KeyAlt::Negate),
-    if p.is_local() { 0 } else { 1 } => Just(KeyAlt::Degenerate),
-    if p == Proto::V1P { 4 } else { 0 } => any::<u8>().prop_map(KeyAlt::RsaPool),
-    3 => (0u8..5, any::<u8>()).prop_map(|(k, w)| KeyAlt::Permute(k, w)),
-    3 => (any::<u16>(), 0u8..5).prop_map(|(b, d)| KeyAlt::FlipTwo(b, d)),
-    if p.is_local() { 3 } else { 0 } => (prop_oneof![any::<u64>(), Just(u64::MAX), (0u32..64).prop_map(|i| 1u64 << i)], any::<bool>()).prop_map(|(m, u)| KeyAlt::HexSpelling(m, u)),
-  ]
-  .boxed()
+  let ed = matches!(p, Proto::V2P | Proto::V4P);
+  let options: Vec<(u32, BoxedStrategy<KeyAlt>)> = vec![
+    (6, gen::bytes32().prop_map(KeyAlt::OtherSeed).boxed()),
+    (6, any::<u16>().prop_map(KeyAlt::FlipBit).boxed()),
+    (1, Just(KeyAlt::AllZero).boxed()),
+    (1, Just(KeyAlt::AllOne).boxed()),
+    (if p.is_local() { 0 } else { 1 }, Just(KeyAlt::Negate).boxed()),
+    (if p.is_local() { 0 } else { 1 }, Just(KeyAlt::Degenerate).boxed()),
+    (if p == Proto::V1P { 4 } else { 0 }, any::<u8>().prop_map(KeyAlt::RsaPool).boxed()),
+    (3, (0u8..5, any::<u8>()).prop_map(|(k, w)| KeyAlt::Permute(k, w)).boxed()),
+    (3, (any::<u16>(), 0u8..5).prop_map(|(b, d)| KeyAlt::FlipTwo(b, d)).boxed()),
+    (if p.is_local() || ed { 2 } else { 0 }, (0u8..3, any::<u8>()).prop_map(|(k, n)| KeyAlt::WrongLength(k, n)).boxed()),
+    (if p.is_local() { 3 } else { 0 }, (prop_oneof![any::<u64>(), Just(u64::MAX), (0u32..64).prop_map(|i| 1u64 << i)], any::<bool>()).prop_map(|(m, u)| KeyAlt::HexSpelling(m, u)).boxed()),
+  ];
+  proptest::strategy::Union::new_weighted(options.into_iter().filter(|(w, _)| *w > 0).collect()).boxed()
 }
 
 fn all_subs() -> Vec<KeyBinding> {
